@@ -98,7 +98,11 @@ class Graph:
         """v is always consumed by u's formula.  (A member of a multi-cell
         rectangle outside an aggregate may or may not be used: the fitting of
         the array to the cell decides - neither strict nor lazy.)"""
-        return any(not o['conds'] and (not o['multi'] or o['agg'])
+        # (a later IFS condition is consumed by the library's cycle analysis
+        # but evaluated only if the earlier conditions are all false: the
+        # property fixes neither outcome - not strict, not lazy)
+        return any(not o['conds'] and not o['weak'] and
+                   (not o['multi'] or o['agg'])
                    for o in self.edge[u][v])
 
     def lazy(self, u, v):
